@@ -1083,7 +1083,11 @@ class AdvancedHTMLParser(HTMLParser):
 
         rootNode.remove()
 
-        return rootNode.blocks
+        if isInvisibleRootTag(rootNode):
+            return rootNode.blocks
+
+        # A single root-level element is itself the only block
+        return [rootNode]
 
 
 class IndexedAdvancedHTMLParser(AdvancedHTMLParser):
